@@ -276,10 +276,7 @@ def evaluate_case(b, case):
         if good > 0:
             b.ok(clause, good)
     for clause, detail in first.items():
-        known = []
-        if clause == 'COMPLETE_EVENTUALLY' and 'descendant_cancelled' in detail.get('features', ()):
-            known.append(('complete.cancelled-descendant', lambda: passes(twin_uncancel(case))))
-        b.fail(case, clause, detail, known=known, dedup='')
+        b.fail(case, clause, detail, dedup='')
 
 
 def run_batch(spec):
